@@ -2,14 +2,19 @@ package checks
 
 import (
 	"context"
+	"encoding/json"
 	"errors"
 	"fmt"
 	"math"
 	"net"
+	"net/http/httptest"
 	"net/netip"
+	"net/url"
 	"sort"
 	"time"
 
+	"github.com/DataDog/datadog-traceroute/result"
+	"github.com/DataDog/datadog-traceroute/server"
 	"github.com/DataDog/datadog-traceroute/traceroute"
 
 	"verif/harness/drive"
@@ -127,6 +132,14 @@ func checkC15() fw.Check {
 				rq := rq
 				id := fmt.Sprintf("C15/%d/%s/q%d-e%d-f%d-%d", i, rq.proto, rq.q, rq.e, len(rq.failRuns), len(rq.failE2e))
 				cases = append(cases, fw.Case{ID: id, Bubble: true, Run: func(c *fw.Ctx) { runC15Case(c, id, rq) }})
+			}
+			// through the HTTP handler: explicit counts, including an explicit 0 of either kind, are the numbers of path
+			// runs and end-to-end probes that go on the wire and come back in the document
+			for _, proto := range []string{"udp", "icmp"} {
+				for _, qe := range [][2]int{{0, 2}, {2, 0}, {1, 1}, {3, 2}, {0, 1}, {1, 0}} {
+					proto, qe := proto, qe
+					cases = append(cases, fw.Case{ID: fmt.Sprintf("C15/http/%s/q%d-e%d", proto, qe[0], qe[1]), Bubble: true, Run: func(c *fw.Ctx) { runC15HTTP(c, c.ID, proto, qe[0], qe[1]) }})
+				}
 			}
 			return cases
 		},
@@ -332,4 +345,60 @@ func roleKind(r string) string {
 		return r[:3]
 	}
 	return r
+}
+
+func runC15HTTP(c *fw.Ctx, id, proto string, q, e2e int) {
+	resetProcessState()
+	v := map[string]refmatch.Variant{"udp": refmatch.VariantByName("udp4"), "icmp": refmatch.VariantByName("icmp4")}[proto]
+	target := drive.TargetFor(v, 180+c.Worker)
+	const maxTTL = 4
+	params := traceroute.TracerouteParams{Hostname: target.String(), Port: 33434, Protocol: proto, MinTTL: 1, MaxTTL: maxTTL, Timeout: 60 * time.Millisecond, TracerouteQueries: q, E2eQueries: e2e}
+	env, err := newReqEnv(c, params, target, 33434, false)
+	if err != nil {
+		c.Inconclusive(err.Error())
+		return
+	}
+	defer env.close()
+	env.modelFor = func(k int, e *simEnv) *pathModel { return flowPath(k, e, 3, true, 300*time.Microsecond) }
+	qv := url.Values{"target": {target.String()}, "protocol": {proto}, "port": {"33434"}, "max-ttl": {fmt.Sprint(maxTTL)}, "timeout": {"60"},
+		"traceroute-queries": {fmt.Sprint(q)}, "e2e-queries": {fmt.Sprint(e2e)}}
+	rec := httptest.NewRecorder()
+	allocMu.Lock()
+	server.NewServer().TracerouteHandler(rec, httptest.NewRequest("GET", "/traceroute?"+qv.Encode(), nil))
+	allocMu.Unlock()
+	env.monitors(id)
+	if rec.Code != 200 {
+		c.Violate("C15", "http-failed", fmt.Sprintf("%s: fault-free request failed with %d: %s", id, rec.Code, rec.Body.String()), nil)
+		return
+	}
+	var doc result.Results
+	if err := json.Unmarshal(rec.Body.Bytes(), &doc); err != nil {
+		c.Violate("C15", "http-json", fmt.Sprintf("%s: %v", id, err), nil)
+		return
+	}
+	// senders on the wire: a path run starts at TTL 1, an end-to-end probe is a single probe at the last TTL
+	env.w.Lock()
+	first := map[int]int{}
+	for _, em := range env.w.Emissions {
+		if _, ok := first[em.Handle]; !ok && em.Pkt != nil {
+			first[em.Handle] = int(em.Pkt.TTL)
+		}
+	}
+	env.w.Unlock()
+	runsOnWire, e2eOnWire := 0, 0
+	for _, t := range first {
+		if t == maxTTL {
+			e2eOnWire++
+		} else {
+			runsOnWire++
+		}
+	}
+	c.Nontrivial(fmt.Sprintf("http/%s/q%d-e%d", proto, q, e2e))
+	c.Count("http_requests", 1)
+	if runsOnWire != q || e2eOnWire != e2e {
+		c.Violate("C15", "http-count/wire", fmt.Sprintf("%s: traceroute-queries=%d e2e-queries=%d put %d path runs and %d end-to-end probes on the wire", id, q, e2e, runsOnWire, e2eOnWire), nil)
+	}
+	if len(doc.Traceroute.Runs) != q || len(doc.E2eProbe.RTTs) != e2e {
+		c.Violate("C15", "http-count/document", fmt.Sprintf("%s: traceroute-queries=%d e2e-queries=%d returned %d runs and %d RTT samples", id, q, e2e, len(doc.Traceroute.Runs), len(doc.E2eProbe.RTTs)), nil)
+	}
 }
